@@ -17,7 +17,17 @@ Ret(rg) == Ins("return", rg, 0, 0)
 RetW(rg) == Ins("return-wide", rg, 0, 0)
 M(prog, nregs, first, sig, ret) == [prog |-> prog, nregs |-> nregs, first |-> first, sig |-> sig, ret |-> ret]
 Branchy(test) == <<test, InsLit("const/4", 0, 0, 0), Ret(0), InsLit("const/4", 0, 0, 1), Ret(0)>>
+\* operations whose destination is also an operand, on a variable that lives across a branch or a loop (p0 = v1, p1 = v2 / v3-4; v0 counts)
+Looped(op, ret) == <<InsLit("const/4", 0, 0, 3), [I(0) EXCEPT !.op = "if-lez", !.a = 0, !.t = 6], op, InsLit("add-int/lit8", 0, 0, -1),
+                     [I(0) EXCEPT !.op = "goto", !.t = 2], ret>>
+AliasI == {Ins(nm \o "-int", 2, 1, 2) : nm \in IntAlu} \cup {Ins(nm \o "-int", 2, 2, 1) : nm \in IntAlu} \cup {Ins(nm \o "-int/2addr", 2, 1, 0) : nm \in IntAlu}
+          \cup {InsLit(nm \o "-int/lit8", 2, 2, 5) : nm \in Lit8Alu} \cup {InsLit("rsub-int/lit8", 2, 2, 100), InsLit("rsub-int", 2, 2, 1000)}
+LongAlu == IntAlu \ {"shl", "shr", "ushr"}
+AliasL == {Ins(nm \o "-long", 3, 1, 3) : nm \in LongAlu} \cup {Ins(nm \o "-long", 3, 3, 1) : nm \in LongAlu} \cup {Ins(nm \o "-long/2addr", 3, 1, 0) : nm \in LongAlu}
+Aliased == {M(Looped(op, Ret(2)), 3, 1, <<"I", "I">>, "I") : op \in AliasI} \cup {M(Looped(op, RetW(3)), 5, 1, <<"J", "J">>, "J") : op \in AliasL}
+           \cup {M(<<[I(0) EXCEPT !.op = "if-lez", !.a = 1, !.t = 3], op, Ret(2)>>, 3, 1, <<"I", "I">>, "I") : op \in AliasI}
 Methods ==
+  Aliased \cup
   {M(<<Ins(nm \o "-int", 0, 2, 3), Ret(0)>>, 4, 2, <<"I", "I">>, "I") : nm \in IntAlu}
   \cup {M(<<Ins(nm \o "-int/2addr", 2, 3, 0), Ret(2)>>, 4, 2, <<"I", "I">>, "I") : nm \in IntAlu}
   \cup {M(<<InsLit(nm \o "-int/lit16", 0, 1, lt), Ret(0)>>, 2, 1, <<"I">>, "I") : nm \in Lit16Alu, lt \in Lits16}
